@@ -1053,6 +1053,8 @@ fn main() {
         Some("walks") => walks::run(&a[2], &a[3]),
         Some("wire") => wire::run(&a[2], &a[3]),
         Some("async") => asyncmode::run(&a[2], &a[3], &a[4], a[5].parse().unwrap(), a.get(6).map_or(false, |x| x == "thorough")),
+        Some("idl") => vh::idl::run(&a[2], &a[3]),
+        Some("idl-faults") => vh::idl::run_faults(&a[2], &a[3], a.get(4).map_or(0, |x| x.parse().unwrap())),
         Some("record") => run_record(a[2].parse().unwrap(), a[3].parse().unwrap(), &a[4]),
         _ => {
             eprintln!("usage: drive vectors <in.ndjson> <out.ndjson>");
